@@ -65,13 +65,18 @@ class SBool(V):
 
 
 class SSeq(V):
-    """kind: 'bytes' | 'tuple' | 'list*' (immutable view); elem: 'int' | 'bytes'"""
-    __slots__ = ("t", "kind", "elem")
+    """kind: 'bytes' | 'tuple' | 'list*' (immutable view); elem: 'int' | 'bytes';
+    rng: optional (lo, hi) known to bound every element (a byte string always has (0, 255)); the bound is added as
+    a quantifier-free fact about each element that is read"""
+    __slots__ = ("t", "kind", "elem", "rng")
 
-    def __init__(self, t, kind="bytes", elem="int"):
+    def __init__(self, t, kind="bytes", elem="int", rng=None):
         self.t = t
         self.kind = kind
         self.elem = elem
+        if rng is None and kind == "bytes" and elem == "int":
+            rng = (0, 255)
+        self.rng = rng
 
     def __repr__(self):
         return "SSeq<%s,%s>(%s)" % (self.kind, self.elem, self.t)
